@@ -44,6 +44,7 @@ type recClock struct {
 	zero time.Time
 	mu   sync.Mutex
 	last string // the argument of the last Until call since the previous collect ("-" if none)
+	all  []int64
 }
 
 func (c *recClock) Zero() time.Time { return c.zero }
@@ -51,6 +52,7 @@ func (c *recClock) Set(time.Time)   {}
 func (c *recClock) Until(t time.Time) {
 	c.mu.Lock()
 	c.last = tm(t)
+	c.all = append(c.all, t.UnixNano())
 	c.mu.Unlock()
 }
 func (c *recClock) take() string {
@@ -135,6 +137,7 @@ func b01(b bool) string {
 // ---- collectors ----
 
 type collector struct {
+	multi    bool // several sources share the clock: the Until before a collect cannot be attributed
 	clk      *recClock
 	mu       sync.Mutex
 	items    []string
@@ -154,6 +157,9 @@ func (c *collector) CollectPoint(p edge.PointMessage) error {
 
 func (c *collector) CollectBatch(b edge.BufferedBatchMessage) error {
 	u := c.clk.take()
+	if c.multi {
+		u = "*"
+	}
 	var pts []string
 	for _, p := range b.Points() {
 		pts = append(pts, renderTags(p.Tags())+"!"+renderFields(p.Fields())+"!"+tm(p.Time()))
@@ -180,6 +186,14 @@ func (c *collector) result(status string) string {
 	c.mu.Lock()
 	defer c.mu.Unlock()
 	r := []string{status, strconv.Itoa(c.closes), strconv.Itoa(c.closedAt)}
+	return strings.Join(append(r, c.items...), " ")
+}
+
+// resultSrc renders one batch source: S <closes> <closedAt> <n> <item>*
+func (c *collector) resultSrc() string {
+	c.mu.Lock()
+	defer c.mu.Unlock()
+	r := []string{"S", strconv.Itoa(c.closes), strconv.Itoa(c.closedAt), strconv.Itoa(len(c.items))}
 	return strings.Join(append(r, c.items...), " ")
 }
 
@@ -266,6 +280,7 @@ func execCaseOpt(ops []string, doReplay bool) (out []string) {
 		zero      time.Time
 		precision = "n"
 		buf       bytes.Buffer
+		srcs      [][]byte // completed batch sources (op `src` closes one)
 		recErr    bool
 	)
 	for _, raw := range ops {
@@ -278,6 +293,12 @@ func execCaseOpt(ops []string, doReplay bool) (out []string) {
 			continue
 		}
 		need := map[string]int{"stream": 4, "batch": 3, "pt": 7, "b": 6}
+		if t[0] == "src" {
+			srcs = append(srcs, append([]byte(nil), buf.Bytes()...))
+			buf.Reset()
+			out = append(out, line)
+			continue
+		}
 		if len(t) < need[t[0]] {
 			out = append(out, line)
 			continue
@@ -340,6 +361,56 @@ func execCaseOpt(ops []string, doReplay bool) (out []string) {
 				continue
 			}
 			clk := &recClock{zero: zero, last: "-"}
+			if mode == "batch" {
+				all := append(srcs, append([]byte(nil), buf.Bytes()...))
+				var datas []io.ReadCloser
+				var cols []*collector
+				var bcols []kapacitor.BatchCollector
+				for _, d := range all {
+					datas = append(datas, nopCloser{bytes.NewReader(d)})
+					c := &collector{clk: clk, multi: len(all) > 1}
+					cols = append(cols, c)
+					bcols = append(bcols, c)
+				}
+				var status string
+				func() {
+					defer func() {
+						if r := recover(); r != nil {
+							status = "panic"
+						}
+					}()
+					status = wait(kapacitor.ReplayBatchFromIO(clk, datas, bcols, recTime))
+				}()
+				for i := 0; i < 2000 && status != "hang" && status != "panic"; i++ {
+					done := true
+					for _, c := range cols {
+						c.mu.Lock()
+						if c.closes == 0 {
+							done = false
+						}
+						c.mu.Unlock()
+					}
+					if done {
+						break
+					}
+					time.Sleep(time.Millisecond)
+				}
+				res := []string{status, strconv.Itoa(len(cols))}
+				for _, c := range cols {
+					res = append(res, c.resultSrc())
+				}
+				clk.mu.Lock()
+				us := append([]int64(nil), clk.all...)
+				clk.mu.Unlock()
+				sort.Slice(us, func(i, j int) bool { return us[i] < us[j] })
+				var ut []string
+				for _, u := range us {
+					ut = append(ut, strconv.FormatInt(u, 10))
+				}
+				res = append(res, "U:"+list(ut, ","))
+				out = append(out, line+" => "+strings.Join(res, " "))
+				continue
+			}
 			col := &collector{clk: clk}
 			data := nopCloser{bytes.NewReader(buf.Bytes())}
 			var status string
@@ -349,11 +420,7 @@ func execCaseOpt(ops []string, doReplay bool) (out []string) {
 						status = "panic"
 					}
 				}()
-				if mode == "stream" {
-					status = wait(kapacitor.ReplayStreamFromIO(clk, data, col, recTime, precision))
-				} else {
-					status = wait(kapacitor.ReplayBatchFromIO(clk, []io.ReadCloser{data}, []kapacitor.BatchCollector{col}, recTime))
-				}
+				status = wait(kapacitor.ReplayStreamFromIO(clk, data, col, recTime, precision))
 			}()
 			// the error channel may deliver before the replaying goroutine has closed the collector
 			for i := 0; i < 2000; i++ {
@@ -379,7 +446,6 @@ func emit(out *kit.Out, id string, lines []string) {
 	out.Line("end")
 }
 
-var _ = sort.Strings
 
 // ---- worker process: a panic inside a goroutine of the real code (ReplayStreamFromIO starts its own) cannot be
 // recovered in-process; every case is therefore executed in a child `vh-c18 -worker`, and a child that dies in the
